@@ -5,6 +5,7 @@ package main
 
 import (
 	"bytes"
+	"encoding/base64"
 	"encoding/binary"
 	"encoding/json"
 	"fmt"
@@ -58,6 +59,13 @@ type netPrint struct {
 	T    []int `json:"t"` // (&net.IPNet{IP: ip, Mask: net.CIDRMask(ones, 128)}).String()
 }
 
+// base64.StdEncoding on the echconfig values of B/H lines: Decode (text -> bytes, only successful
+// ones are listed) and Encode (bytes -> text)
+type b64Pair struct {
+	T []int `json:"t"`
+	B []int `json:"b"`
+}
+
 type lineCase struct {
 	Kind   string      `json:"kind"` // "line"
 	Class  string      `json:"class"`
@@ -74,6 +82,8 @@ type lineCase struct {
 	CP     []cidrParse `json:"cp"`
 	NP     []netPrint  `json:"np"`
 	Runes  [][3]int    `json:"runes"` // (rune, strconv.IsPrint, unicode.ToLower) for runes >= 0x80 of the unquoted fields
+	B64D   []b64Pair   `json:"b64d"`
+	B64E   []b64Pair   `json:"b64e"`
 }
 
 type dumpEnt struct {
@@ -101,6 +111,8 @@ type fileCase struct {
 	CP        []cidrParse `json:"cp"`
 	NP        []netPrint  `json:"np"`
 	Runes     [][3]int    `json:"runes"`
+	B64D      []b64Pair   `json:"b64d"`
+	B64E      []b64Pair   `json:"b64e"`
 	Wf        bool        `json:"wf"`
 	// Lite: a file with one large location map (more than 100 range points, several chunks of the
 	// accumulator scanner).  Only the two dumps are evaluated in Coq (spec_ok); the per-line model,
@@ -171,10 +183,80 @@ type oracles struct {
 	cp   map[string]cidrParse
 	np   map[string]netPrint
 	runs map[rune]bool
+	b64d map[string][]byte // only successful decodes
+	b64e map[string]string
 }
 
 func newOracles() *oracles {
-	return &oracles{map[string][]byte{}, map[string]string{}, map[string]cidrParse{}, map[string]netPrint{}, map[rune]bool{}}
+	return &oracles{map[string][]byte{}, map[string]string{}, map[string]cidrParse{}, map[string]netPrint{}, map[rune]bool{},
+		map[string][]byte{}, map[string]string{}}
+}
+
+// feedSvcb puts the questions of the SVCB parameter code (dnsdata/svcb) to the library for the last
+// field of a B/H line: net.ParseIP on every token of an ipv4hint / ipv6hint value, net.IP.String on
+// the 16-byte and (ipv4hint) the 4-byte form of what it parsed to, base64 Decode on an echconfig value
+// and Encode on what it decoded to.  The tokenisation only decides WHICH questions are asked.
+func (o *oracles) feedSvcb(line []byte) {
+	if len(line) == 0 || (line[0] != 'B' && line[0] != 'H') {
+		return
+	}
+	f := splitFields(line)
+	if len(f) < 6 {
+		return
+	}
+	for _, seg := range bytes.Split(f[5], []byte(";")) {
+		kv := bytes.SplitN(seg, []byte("="), 2)
+		if len(kv) != 2 {
+			continue
+		}
+		v := bytes.Trim(kv[1], "\"")
+		switch string(kv[0]) {
+		case "ipv4hint", "ipv6hint":
+			for _, tok := range bytes.Split(v, []byte("|")) {
+				if len(tok) > 96 {
+					continue
+				}
+				o.feedText(tok)
+				if ip := net.ParseIP(string(tok)); ip != nil {
+					if ip4 := ip.To4(); ip4 != nil {
+						o.ips[string([]byte(ip4))] = net.IP(append([]byte{}, ip4...)).String()
+					}
+				}
+			}
+		case "echconfig":
+			if _, done := o.b64d[string(v)]; done {
+				continue
+			}
+			out := make([]byte, base64.StdEncoding.DecodedLen(len(v)))
+			n, err := base64.StdEncoding.Decode(out, append([]byte{}, v...))
+			if err != nil {
+				continue
+			}
+			out = out[:n]
+			o.b64d[string(v)] = out
+			enc := make([]byte, base64.StdEncoding.EncodedLen(len(out)))
+			base64.StdEncoding.Encode(enc, out)
+			o.b64e[string(out)] = string(enc)
+			// the printed text is parsed back by the guard
+			if _, done := o.b64d[string(enc)]; !done {
+				back := make([]byte, base64.StdEncoding.DecodedLen(len(enc)))
+				if m, err := base64.StdEncoding.Decode(back, append([]byte{}, enc...)); err == nil {
+					o.b64d[string(enc)] = back[:m]
+				}
+			}
+		}
+	}
+}
+
+func (o *oracles) b64tables() ([]b64Pair, []b64Pair) {
+	d, e := []b64Pair{}, []b64Pair{}
+	for _, k := range sortedKeys(o.b64d) {
+		d = append(d, b64Pair{hlib.Ints([]byte(k)), hlib.Ints(o.b64d[k])})
+	}
+	for _, k := range sortedKeys(o.b64e) {
+		e = append(e, b64Pair{hlib.Ints([]byte(o.b64e[k])), hlib.Ints([]byte(k))})
+	}
+	return d, e
 }
 
 func (o *oracles) addIP(ip net.IP) {
@@ -249,6 +331,7 @@ func (o *oracles) feedLine(line []byte) {
 	for _, f := range splitFields(line) {
 		o.feedText(f)
 	}
+	o.feedSvcb(line)
 }
 
 func runLine(line []byte, v2 bool, serial uint32, class string, wf bool) lineCase {
@@ -278,6 +361,7 @@ func runLine(line []byte, v2 bool, serial uint32, class string, wf bool) lineCas
 		o.feedText([]byte(o.ips[k]))
 	}
 	c.IPP, c.IPS, c.CP, c.NP = o.tables()
+	c.B64D, c.B64E = o.b64tables()
 	c.Runes = runeOracle([][]byte{line, hlib.Unints(c.S1.Text)})
 	return c
 }
@@ -443,10 +527,12 @@ func runFile(scratch string, lines [][]byte, v2 bool, serial, preSerial uint32, 
 		o.feedText([]byte(o.ips[k]))
 	}
 	fc.IPP, fc.IPS, fc.CP, fc.NP = o.tables()
+	fc.B64D, fc.B64E = o.b64tables()
 	fc.Runes = runeOracle(all)
 	if lite {
 		fc.Lite = true
 		fc.IPP, fc.IPS, fc.CP, fc.NP, fc.Runes, fc.AccKV = []ipParse{}, []ipPrint{}, []cidrParse{}, []netPrint{}, [][3]int{}, []kvT{}
+		fc.B64D, fc.B64E = []b64Pair{}, []b64Pair{}
 	}
 	for _, l := range lines {
 		z := 0
